@@ -352,6 +352,36 @@ func checkC17(c *c17Case) (ds []hx.Discrepancy, info map[string]bool) {
 			}()
 		}
 	}
+	// one parsed request asking for __type by a variable, resolved for one name after the other
+	// (names of the schema in model order, an unknown name in between): every answer is about the
+	// name of that call
+	if exe, perr := root.ParseExecutableString(`query T($n: String!) { __type(name: $n) { name kind } }`); perr == nil {
+		var names []string
+		for _, td := range c.Schema.Types {
+			names = append(names, td.Name)
+			if len(names) == 2 {
+				names = append(names, "ZqMissing")
+			}
+		}
+		names = append(names, "ZqMissing", c.Schema.Types[0].Name)
+		for _, n := range names {
+			res, rerr := root.ResolveExecutable(exe, "T", map[string]interface{}{"n": n})
+			var got interface{}
+			if d, _ := res["data"].(map[string]interface{}); d != nil {
+				if tm, _ := d["__type"].(map[string]interface{}); tm != nil {
+					got = tm["name"]
+				}
+			}
+			want := interface{}(n)
+			if n == "ZqMissing" {
+				want = nil
+			}
+			if got != want || rerr != nil {
+				return []hx.Discrepancy{{Kind: "type-by-variable", Detail: fmt.Sprintf("a kept request __type(name: $n) resolved with n=%q answered about %v (error %v); names asked in this order: %v\n%s", n, got, rerr, names, sdl)}}, info
+			}
+		}
+		info["kept-request-asks-for-types-by-variable"] = true
+	}
 	for i, inc := range append([]string{c.InclDep}, c.Then...) {
 		one := *c
 		one.InclDep = inc
